@@ -514,6 +514,140 @@ theorem conv_flat_is_link {kf kc kh kw ih iw oh ow : ℕ} (l : Conv ℝ) (a : Ac
     IsVJP (fun x => flat (convFn l a K ih iw oh ow x)) x (fun g => convBwdX l a K ih iw oh ow x (unflat g)) :=
   ⟨real_conv_flat l a K hl ha hfl x, vjp_conv_flat l a K hl ha x hk⟩
 
+open Network ChainLinks ConvVJP DeconvBridge Flat3 in
+/-- … **deconvolution** on the model's own `Deconv.forward` / `Deconv.backward` (entry, the scatter loops, activation,
+    Hadamard product, the backward scatter `gradPass`), every stride, padding, kernel, channel and filter count:
+    a link whose backward is the transposed Jacobian in the input, and whose recorded kernel gradient is the
+    transposed Jacobian in the kernels … -/
+theorem deconv_is_link {kf kc kh kw ih iw oh ow : ℕ} (l : Deconv ℝ) (a : Act) (K : V (I4 kf kc kh kw))
+    (hl : IsDeconv l a K ih iw oh ow) (ha : a ≠ .softmax) (hfl : l.flatten = false) (x : V (I3 kc ih iw))
+    (hk : ∀ i, NoKink a (DeconvBridge.pre l K ih iw oh ow x i)) :
+    (layerForward (.deconv l) (ConvBridge.T3 x) =
+        .ok (ConvBridge.T3 (DeconvBridge.pre l K ih iw oh ow x), ConvBridge.T3 (deconvFn l a K ih iw oh ow x), .none) ∧
+     ∀ g, layerBackward (.deconv l) (ConvBridge.T3 g) (ConvBridge.T3 x) (ConvBridge.T3 (DeconvBridge.pre l K ih iw oh ow x)) (.ok .none) =
+      .ok (ConvBridge.T3 (bwdX l a K ih iw oh ow x g), .one (ConvBridge.T4 (bwdKer l a K ih iw oh ow x g)), .one none)) ∧
+    IsVJP (deconvFn l a K ih iw oh ow) x (bwdX l a K ih iw oh ow x) ∧
+    IsVJP (fun K' => deconvFn l a K' ih iw oh ow x) K (bwdKer l a K ih iw oh ow x) :=
+  ⟨real_deconv l a K hl ha hfl x, vjp_deconv l a K ha x hk, vjp_deconv_kernels l a K ha x hk⟩
+
+open Network ChainLinks ConvVJP DeconvBridge Flat3 in
+/-- … also when a dense layer follows (flattened output) -/
+theorem deconv_flat_is_link {kf kc kh kw ih iw oh ow : ℕ} (l : Deconv ℝ) (a : Act) (K : V (I4 kf kc kh kw))
+    (hl : IsDeconv l a K ih iw oh ow) (ha : a ≠ .softmax) (hfl : l.flatten = true) (x : V (I3 kc ih iw))
+    (hk : ∀ i, NoKink a (DeconvBridge.pre l K ih iw oh ow x i)) :
+    (layerForward (.deconv l) (ConvBridge.T3 x) =
+        .ok (ConvBridge.T3 (DeconvBridge.pre l K ih iw oh ow x), vecT (flat (deconvFn l a K ih iw oh ow x)), .none) ∧
+     ∀ g : Vec (kf * oh * ow), layerBackward (.deconv l) (vecT g) (ConvBridge.T3 x) (ConvBridge.T3 (DeconvBridge.pre l K ih iw oh ow x)) (.ok .none) =
+      .ok (ConvBridge.T3 (bwdX l a K ih iw oh ow x (unflat g)), .one (ConvBridge.T4 (bwdKer l a K ih iw oh ow x (unflat g))), .one none)) ∧
+    IsVJP (fun x => flat (deconvFn l a K ih iw oh ow x)) x (fun g => bwdX l a K ih iw oh ow x (unflat g)) :=
+  ⟨real_deconv_flat l a K hl ha hfl x, vjp_deconv_flat l a K ha x hk⟩
+
+open Network ChainLinks DenseStack DenseBlock in
+/-- … and a **feedback block that unrolls to a stack of dense layers** (no internal skips; any number of
+    loops, since the unrolled list is what the block holds) is a link: as a layer of `Network.forward` /
+    `Network.backward` it computes the stack's function, and hands back the stack's reverse-mode gradient -/
+theorem dense_block_is_link {n k : ℕ} (f : Feedback ℝ) (s : Stack n k) (hf : IsDenseBlock f s) (hv : s.Valid)
+    (hpos : 0 < s.layers.length) (x : Vec n) (hk : s.NoKinks x) :
+    (layerForward (.feedback f) (vecT x) = .ok ((s.pres x).head?.getD (vecT x), vecT (s.net.fwd x), blockRec s x) ∧
+     ∀ g, layerBackward (.feedback f) (vecT g) (vecT x) ((s.pres x).head?.getD (vecT x)) (.ok (blockRec s x)) =
+      .ok (vecT (s.net.bwd x g), (blockWG f s x g).1, (blockWG f s x g).2)) ∧
+    IsVJP s.net.fwd x (s.net.bwd x) :=
+  ⟨real_block f s hf hv hpos x, vjp_block s hv x hk⟩
+
+open Network ChainLinks ConvVJP ConvBridge MaxpoolBridge MaxpoolLocal Flat3 in
+/-- … **max-pool** on the model's own `Maxpool.forward` / `Maxpool.backward` (entry, the window loops writing
+    value and arg-max position, the validity check of the recorded positions, the routing loop): its forward is
+    the window maximum `poolFn`, it records the arg-max positions, and — at any input without ties — routing the
+    gradient to the recorded positions is the transposed Jacobian of the pool itself (the pool is locally the
+    selection of those positions) … -/
+theorem maxpool_is_link {ic ih iw oh ow : ℕ} (l : Maxpool ℝ) (hl : IsPool l ic ih iw oh ow) (hfl : l.flatten = false)
+    (x : V (I3 ic ih iw)) (hnt : NoTies l ih iw oh ow x) :
+    (layerForward (.maxpool l) (T3 x) =
+        .ok (T3 (poolFn l ih iw oh ow x), T3 (poolFn l ih iw oh ow x), .max (idxOf l ih iw oh ow x)) ∧
+     ∀ g pre, layerBackward (.maxpool l) (T3 g) (T3 x) pre (.ok (.max (idxOf l ih iw oh ow x))) =
+      .ok (T3 (poolBwd l ih iw oh ow x g), .one (Tensor.single []), .one none)) ∧
+    IsVJP (poolFn l ih iw oh ow) x (poolBwd l ih iw oh ow x) :=
+  ⟨real_pool l hl hfl x, vjp_pool l hl x hnt⟩
+
+open Network ChainLinks ConvVJP ConvBridge MaxpoolBridge MaxpoolLocal Flat3 in
+/-- … also when a dense layer follows (flattened output) -/
+theorem maxpool_flat_is_link {ic ih iw oh ow : ℕ} (l : Maxpool ℝ) (hl : IsPool l ic ih iw oh ow) (hfl : l.flatten = true)
+    (x : V (I3 ic ih iw)) (hnt : NoTies l ih iw oh ow x) :
+    (layerForward (.maxpool l) (T3 x) =
+        .ok (T3 (poolFn l ih iw oh ow x), vecT (flat (poolFn l ih iw oh ow x)), .max (idxOf l ih iw oh ow x)) ∧
+     ∀ (g : Vec (ic * oh * ow)) pre, layerBackward (.maxpool l) (vecT g) (T3 x) pre (.ok (.max (idxOf l ih iw oh ow x))) =
+      .ok (T3 (poolBwd l ih iw oh ow x (unflat g)), .one (Tensor.single []), .one none)) ∧
+    IsVJP (fun x => flat (poolFn l ih iw oh ow x)) x (fun g => poolBwd l ih iw oh ow x (unflat g)) :=
+  ⟨real_pool_flat l hl hfl x, vjp_pool_flat l hl x hnt⟩
+
+open MaxpoolBridge in
+/-- non-vacuity: a 2×3 pool with stride (2,1) on a 3×5×4 input -/
+example : IsPool ({ inputs := .triple 3 5 4, outputs := .triple 3 2 2, loops := 1, kernel := (2, 3), stride := (2, 1), flatten := true } : Maxpool ℝ) 3 5 4 2 2 :=
+  ⟨rfl, rfl, by decide, by decide, by decide, by decide, by decide, by decide, rfl, by decide⟩
+
+open Network ChainLinks LayerChain ConvVJP ConvBridge MaxpoolBridge MaxpoolLocal ConvNet Flat3 DenseStack in
+/-- **convolution → max-pool → (flatten) → dense stack of any depth** (the classic CNN shape), every configuration of
+    both spatial layers, on the model's own `Network.forward` / `Network.backward` folds: the input gradient and the
+    convolution's kernel gradient are the gradients of the objective (away from activation kinks and pooling ties) -/
+theorem conv_pool_mlp_gradients {c0 h0 w0 f1 kh1 kw1 h1 w1 h2 w2 k : ℕ} (n : Network ℝ)
+    (l1 : Conv ℝ) (a1 : Act) (K1 : V (I4 f1 c0 kh1 kw1)) (hl1 : IsConv l1 a1 K1 h0 w0 h1 w1) (ha1 : a1 ≠ .softmax) (hf1 : l1.flatten = false)
+    (l2 : Maxpool ℝ) (hl2 : IsPool l2 f1 h1 w1 h2 w2) (hf2 : l2.flatten = true)
+    (s : Stack (f1 * h2 * w2) k) (hv : s.Valid)
+    (hn : n.layers = .conv l1 :: .maxpool l2 :: s.layers) (hc : n.connect = []) (hlb : n.loopbacks = [])
+    (x : V (I3 c0 h0 w0))
+    (hk1 : ∀ i, NoKink a1 (pre l1 K1 h0 w0 h1 w1 x i))
+    (hnt : NoTies l2 h1 w1 h2 w2 (convFn l1 a1 K1 h0 w0 h1 w1 x))
+    (hks : s.NoKinks (flat (poolFn l2 h1 w1 h2 w2 (convFn l1 a1 K1 h0 w0 h1 w1 x))))
+    (ℓ : Vec k → ℝ) (g : Vec k) :
+    let F := fun (K : V (I4 f1 c0 kh1 kw1)) (z : V (I3 c0 h0 w0)) =>
+      s.net.fwd (flat (poolFn l2 h1 w1 h2 w2 (convFn l1 a1 K h0 w0 h1 w1 z)))
+    IsGrad ℓ (F K1 x) g →
+    ∃ t ws bs gs γ ω,
+      n.forward (T3 x) = .ok t ∧ t.act.getLast? = some (vecT (F K1 x)) ∧
+      n.backward (vecT g) t = .ok (ws, bs, gs) ∧ gs.getLast? = some (T3 γ) ∧ ws.getLast? = some (.one (T4 ω)) ∧
+      IsGrad (ℓ ∘ F K1) x γ ∧ IsGrad (fun K => ℓ (F K x)) K1 ω := by
+  intro F hg
+  let tail := consPoolFlat (oh := h2) (ow := w2) l2 h1 w1 (stackChain s)
+  let ch := consConv (oh := h1) (ow := w1) l1 a1 K1 h0 w0 tail
+  have hfwdK : ∀ (K : V (I4 f1 c0 kh1 kw1)) (z : V (I3 c0 h0 w0)),
+      (gnet tail).fwd (convFn l1 a1 K h0 w0 h1 w1 z) = F K z := by
+    intro K z
+    simp only [tail, consPoolFlat, gnet, GNet.fwd, stack_gnet_fwd, F]
+  have hfwd : (gnet ch).fwd = F K1 := by
+    funext z
+    simp only [ch, consConv, gnet, GNet.fwd]
+    exact hfwdK K1 z
+  have hreal : Real ch x := by
+    obtain ⟨r1, r2⟩ := real_conv l1 a1 K1 hl1 ha1 hf1 x
+    obtain ⟨q1, q2⟩ := real_pool_flat l2 hl2 hf2 (convFn l1 a1 K1 h0 w0 h1 w1 x)
+    exact ⟨r1, r2, q1, fun g => q2 g _, stackChain_real s _ hv⟩
+  have htailok : (gnet tail).Ok (convFn l1 a1 K1 h0 w0 h1 w1 x) :=
+    ⟨vjp_pool_flat l2 hl2 _ hnt, stackChain_ok s _ hv hks⟩
+  have hok : (gnet ch).Ok x := ⟨vjp_conv l1 a1 K1 hl1 ha1 x hk1, htailok⟩
+  have hlayers : n.layers = LayerChain.layers ch := by
+    rw [hn]
+    simp only [ch, tail, consConv, consPoolFlat, LayerChain.layers, stackChain_layers]
+  have hg' : IsGrad ℓ ((gnet ch).fwd x) g := by rw [hfwd]; exact hg
+  obtain ⟨t, ws, bs, gs, h1', h2', h3', h4', h5', h6'⟩ := network_gradient n ch hlayers hc hlb x hreal hok ℓ g hg'
+  have hpar := LayerChain.parameter_gradient (fun K' => convFn l1 a1 K' h0 w0 h1 w1 x) K1
+    (convBwdKer l1 a1 K1 h0 w0 h1 w1 x) (vjp_conv_kernels l1 a1 K1 hl1 ha1 x hk1) (gnet tail) htailok ℓ g
+    (by rw [hfwdK K1 x]; exact hg)
+  refine ⟨t, ws, bs, gs, (gnet ch).bwd x g, _, h1', ?_, h3', h4', h6'.1, ?_, ?_⟩
+  · rw [h2', hfwd]; rfl
+  · rw [← hfwd]; exact h5'
+  · have := hpar.1
+    simp only [hfwdK] at this
+    exact this
+
+open DeconvBridge ConvVJP ConvBridge in
+/-- non-vacuity: a 2-filter 2×3 transposed convolution with stride (2,1) and padding (0,1) on a 1×3×4 input -/
+example (K : V (I4 2 1 2 3)) :
+    IsDeconv (kf := 2) (kc := 1) (kh := 2) (kw := 3)
+      { inputs := .triple 1 3 4, outputs := .triple 2 6 4, loops := 1, scale := fun x => 1 / x, kernels := kernelT K,
+        stride := (2, 1), padding := (0, 1), act := .sigmoid, dropout := none, flatten := false,
+        training := false } .sigmoid K 3 4 6 4 :=
+  ⟨rfl, rfl, rfl, rfl, rfl, by simp [Deconv.outputSize, checkedSub], by norm_num, by decide⟩
+
 open Network ChainLinks LayerChain ConvVJP ConvBridge ConvNet Flat3 DenseStack in
 /-- an instance with two spatial layers: **convolution → convolution → (flatten) → dense stack of any depth**,
     every configuration of both convolutions: the input gradient and the first convolution's kernel gradient
